@@ -28,19 +28,19 @@ def Sched.nextDefer (ts now p : Int) : Int :=
 structure Retries where
   maxAmount : Int := 0
   alreadyTried : Int := 0
-  deriving Repr, BEq, DecidableEq, Inhabited
+  deriving Repr, DecidableEq, Inhabited
 
 structure ResultProps where
   id : String
   ttl : Option Int
-  deriving Repr, BEq, DecidableEq, Inhabited
+  deriving Repr, DecidableEq, Inhabited
 
 structure Delay where
   delayUntil : Option Int := none
   deferBy : Option Int := none
   cron : Option String := none
   nextExecutionTime : Option Int := none
-  deriving Repr, BEq, DecidableEq, Inhabited
+  deriving Repr, DecidableEq, Inhabited
 
 structure Params where
   executionTimeout : Int := 600 * usPerSec
@@ -49,7 +49,7 @@ structure Params where
   delay : Delay := {}
   timestamp : Int := 0
   ttl : Option Int := none
-  deriving Repr, BEq, DecidableEq, Inhabited
+  deriving Repr, DecidableEq, Inhabited
 
 /-- `is_overdue` — one definition; the four code copies (Parameters, ArgsBucket, ResultBucket, Job)
     are each compared with it. -/
